@@ -15,8 +15,10 @@ def _expected(data, cutoff, suppress):
     return exp
 
 
-def _gts(data, cutoff, suppress, n_calls, mutate, group, via_attr):
+def _gts(data, cutoff, suppress, n_calls, mutate, group, via_attr, maxtime=None):
     mod = Model()
+    if maxtime is not None:
+        mod.MaxTime = maxtime          # the model's own horizon: stored groups may be longer (step trace, steady-state search, solver-level horizon)
     holder = TimeSeriesHolder('k')
     holder['x'] = list(data)
     gname = ('main', 'step', 'initial')[group]
@@ -60,6 +62,17 @@ def check_get_timeseries_groups(data: List[int], cutoff: Optional[int], suppress
     post: _
     """
     return _gts(data, cutoff, suppress, 2, True, group, False)
+
+
+def check_get_timeseries_any_model_horizon(data: List[int], cutoff: Optional[int], suppress: bool, group: int, maxtime: int, via_attr: bool) -> bool:
+    """
+    pre: 1 <= len(data) <= 4
+    pre: cutoff is None or 0 <= cutoff <= 5
+    pre: 0 <= group <= 2
+    pre: 0 <= maxtime <= 5
+    post: _
+    """
+    return _gts(data, cutoff, suppress, 2, False, group, via_attr, maxtime)
 
 
 def check_get_timeseries_cutoff_attribute(data: List[int], cutoff: Optional[int], suppress: bool, mutate: bool) -> bool:
